@@ -232,6 +232,39 @@ void h_start0(void) { MODNAMEInstance fresh_;
                 info=dict(layer="G", generated_c=os.path.join(d, modname + ".c"), module_hex=wasm_bytes.hex()))]
 
 
+def twomem_jobs(ctx):
+    """two defined memories, the SECOND one exported: '<module>_<name>' must denote the exported memory, not memory 0"""
+    m = W.Module()
+    m.memory(1, 1)
+    m.memory(2, 3)
+    m.exports.append(("second", 2, 1))
+    m.exports.append(("first", 2, 0))
+    m.func([], [I32], W.ins("i32.const", 0), export="f")
+    modname = "c06twomem"
+    wasm_bytes = m.encode()
+    d, r = ctx.translate(wasm_bytes, modname, ())
+    if d is None:
+        from ..core import rejected_job
+        return [rejected_job("G.twomem.translate", modname, r, wasm_bytes.hex())]
+    text = r'''
+#include "vh.h"
+#include "w2c2_base.h"
+#include "trapstub.h"
+#include "MODNAME.c"
+static MODNAMEInstance inst;
+void h_twomem(void) {
+    MODNAMEInstantiate(&inst, 0);
+    OBL(inst.m0 != 0 && inst.m1 != 0 && inst.m0 != inst.m1 && inst.m0->pages == 1 && inst.m1->pages == 2 && inst.m1->maxPages == 3, "instantiate: every defined memory has its own declared minimum size");
+    OBL(MODNAME_second(&inst) == inst.m1 && MODNAME_first(&inst) == inst.m0, "exports: <module>_<name> of an exported memory denotes THAT memory (the export's index), not memory 0");
+    CANARY("twomem"); }
+'''.replace("MODNAME", modname)
+    hp = os.path.join(d, "gh_%s.c" % modname)
+    open(hp, "w").write(text)
+    return [Job("G.twomem", hp, entry="h_twomem", includes=[d, os.path.join(ctx.repo, "w2c2")], flags=["--unwind", "10", "--unwinding-assertions"],
+                funcs=["generated:%sInstantiate / memory export accessors" % modname], replay=lambda c, j, p, v: native_replay_generic(c, j, p, v), solver="z3",
+                info=dict(layer="G", generated_c=os.path.join(d, modname + ".c"), module_hex=wasm_bytes.hex()))]
+
+
 def variant_jobs(ctx, tag, impmem, start, shared, opts=(), prefix="G", only=None):
     jobs = []
     modname = "c06%s%s" % (tag, "" if prefix == "G" else "".join(ch for ch in prefix.lower() if ch.isalnum()))
@@ -278,6 +311,7 @@ def make_jobs(ctx):
     for tag, impmem, start, shared in [("defmem", False, True, False), ("impmem", True, True, False), ("nostart", False, False, False), ("shared", False, True, True)]:
         jobs += variant_jobs(ctx, tag, impmem, start, shared)
     jobs += start0_jobs(ctx)
+    jobs += twomem_jobs(ctx)
     # data segments kept outside the C file (-d gnu-ld): offsets into the blob must skip passive segments as well
     jobs += variant_jobs(ctx, "defmem", False, True, False, opts=["-d", "gnu-ld"], prefix="Ggnuld", only=(None if ctx.tier == "thorough" else ["h_memory"]))
     if ctx.tier == "thorough":
